@@ -541,6 +541,9 @@ class JsonWebEncryption:
         for member in ("iv", "ciphertext", "tag"):
             if member not in obj:
                 raise DecodeError(f'Missing "{member}" value')
+        for member in ("protected", "aad", "iv", "ciphertext", "tag"):
+            if member in obj and not isinstance(obj[member], (str, bytes)):
+                raise DecodeError(f'Invalid "{member}" value')
 
         for recipient in recipients:
             if not isinstance(recipient, dict) or "encrypted_key" not in recipient:
@@ -548,6 +551,8 @@ class JsonWebEncryption:
             if "header" not in recipient:
                 recipient["header"] = {}
             if not isinstance(recipient["header"], dict):
+                raise DecodeError('Invalid "recipients" value')
+            if not isinstance(recipient["encrypted_key"], (str, bytes)):
                 raise DecodeError('Invalid "recipients" value')
             recipient["encrypted_key"] = extract_segment(
                 to_bytes(recipient["encrypted_key"]), DecodeError, "encrypted key"
